@@ -245,6 +245,8 @@ struct ReqCase {
     payload_len: usize,
     content_type: &'static str,
     drip: bool,
+    /// grpc-accept-encoding sent by the grpc-web client (None = absent)
+    offer: Option<&'static str>,
 }
 
 fn req_body(c: &ReqCase, ch: &Chooser) -> Outcome {
@@ -263,9 +265,12 @@ fn req_body(c: &ReqCase, ch: &Chooser) -> Outcome {
         .version(http::Version::HTTP_11)
         .header("content-type", c.content_type)
         .header("content-length", sent.len().to_string())
-        .header("x-custom", "v")
-        .body(sb)
-        .unwrap();
+        .header("x-custom", "v");
+    let req = match c.offer {
+        Some(o) => req.header("grpc-accept-encoding", o),
+        None => req,
+    };
+    let req = req.body(sb).unwrap();
     let resp = match spin_block_on(svc.call(req), 100_000) {
         Ok(Ok(r)) => r,
         _ => {
@@ -297,6 +302,18 @@ fn req_body(c: &ReqCase, ch: &Chooser) -> Outcome {
     }
     if s.method != Some(http::Method::POST) {
         o.violate("request-method-changed", format!("{:?}", s.method));
+    }
+    // the gRPC protocol headers the client sent (or did not send) reach the inner service as they
+    // are: the layer must not negotiate on the client's behalf
+    let got_offer: Vec<Vec<u8>> = s.headers.get_all("grpc-accept-encoding").iter().map(|v| v.as_bytes().to_vec()).collect();
+    let want_offer: Vec<Vec<u8>> = c.offer.map(|o| vec![o.as_bytes().to_vec()]).unwrap_or_default();
+    if got_offer != want_offer {
+        o.violate("request-grpc-accept-encoding-changed", format!("client sent grpc-accept-encoding {:?}, inner service sees {:?}", c.offer, got_offer.iter().map(|v| String::from_utf8_lossy(v).to_string()).collect::<Vec<_>>()));
+    }
+    for (k, _) in s.headers.iter() {
+        if k.as_str().starts_with("grpc-") && !(k.as_str() == "grpc-accept-encoding" && c.offer.is_some()) {
+            o.violate("request-grpc-header-invented", format!("inner service sees header {} which the client did not send", k.as_str()));
+        }
     }
     o
 }
@@ -395,14 +412,14 @@ pub fn property(tier: Tier) -> Property {
     let mut rcases = vec![];
     for len in 0..=tier.q(7, 9) {
         for ct in ["application/grpc-web", "application/grpc-web+proto", "application/grpc-web-text", "application/grpc-web-text+proto"] {
-            rcases.push(ReqCase { payload_len: len, content_type: ct, drip: false });
-            rcases.push(ReqCase { payload_len: len, content_type: ct, drip: true });
+            rcases.push(ReqCase { payload_len: len, content_type: ct, drip: false, offer: [None, Some("zstd"), Some("identity"), Some("gzip,zstd")][len % 4] });
+            rcases.push(ReqCase { payload_len: len, content_type: ct, drip: true, offer: [Some("zstd"), None, Some("gzip"), Some("identity")][len % 4] });
         }
     }
     let req = Section::new(
         "requests",
         Config::default(),
-        "cases: a gRPC frame with a 0..7 (thorough 0..9) byte payload sent as grpc-web binary or padded base64 text under the four grpc-web content-types; environment: every composition of the request body into chunks (cuts cost nothing; text bodies are <= 20 chars) plus drip; oracle: the inner service receives exactly the original gRPC bytes, content-type application/grpc, other headers and method intact. Non-trivial = request body delivered in more than one chunk.",
+        "cases: a gRPC frame with a 0..7 (thorough 0..9) byte payload sent as grpc-web binary or padded base64 text under the four grpc-web content-types; environment: every composition of the request body into chunks (cuts cost nothing; text bodies are <= 20 chars) plus drip; oracle: the inner service receives exactly the original gRPC bytes, content-type application/grpc, other headers and method intact, and the client's grpc-accept-encoding (absent / zstd / identity / gzip,zstd) arrives unchanged with no other grpc-* header invented. Non-trivial = request body delivered in more than one chunk.",
         rcases,
         |c: &ReqCase| format!("{c:?}"),
         req_body,
